@@ -116,7 +116,7 @@ PROPS["C02"] = {
     "required_witnesses": ["C02:get-checked", "cancel-granted-get"],
     "nontrivial_witnesses": ["complete"],
     "twin": twin_m1("BUF_FIFO", "retrieval"),
-    "bounds": {"quick": "<=3 retrievable items (<=2 + <=1 in transit for timed stores), <=4 retrieval reservations any subset cancelled, 2 (1) free calls",
+    "bounds": {"quick": "<=3 retrievable items (<=2 + <=1 in transit for timed stores; fleets: + <=1 item loaded later), <=4 retrieval reservations any subset cancelled, 2 (1) free calls; one or two caller processes; polled belt histories; value-equal and falsy items",
                "thorough": "<=4 (<=3) items, 3 (2) free calls"},
     "outside": "longer histories",
 }
@@ -145,7 +145,7 @@ PROPS["C05"] = {
     "required_witnesses": ["C05:order-checked"],
     "nontrivial_witnesses": ["C05:order-checked"],
     "twin": twin_m1("RPRS", "prio_get"),
-    "bounds": {"quick": "<=4 waiting requests per side, 2 free calls; priorities unbounded", "thorough": "<=5 waiting requests, 3 free calls"},
+    "bounds": {"quick": "<=4 waiting requests per side, 2 free calls; priorities unbounded; withdraw-then-late-request shapes with the waiting-line order oracle", "thorough": "<=5 waiting requests, 3 free calls"},
     "outside": "more simultaneous waiters",
 }
 
@@ -217,7 +217,7 @@ PROPS["C07"] = {
                            "C07:ill-formed:put-cancelled-token", "C07:ill-formed:get-with-put-token"],
     "nontrivial_witnesses": ["complete"],
     "twin": lambda tier: ("vfy.m1", "scenario_c07", dict(store="RPRS", N=1, K=0, T=1, twin=True)),
-    "bounds": {"quick": "<=2 items (1 for timed stores), <=2 reservations per side, one ill-formed call of 18 kinds, two caller processes taking turns",
+    "bounds": {"quick": "<=2 items (1 for timed stores, 2 for BufferStore FIFO and FleetStore), <=2 reservations per side, one ill-formed call of 18 kinds, two caller processes taking turns, one of them optionally outside any process",
                "thorough": "<=2 items, <=3 reservations per side, one optional free call before the ill-formed call"},
     "outside": "sequences of several ill-formed calls",
 }
@@ -245,7 +245,7 @@ PROPS["C11"] = {
     "required_witnesses": ["C11:probe", "C02:get-checked"],
     "nontrivial_witnesses": ["complete"],
     "twin": lambda tier: ("vfy.m1", "scenario_c11", dict(store="BUFE_FIFO", N=1, K=0, R2=0, RMAX=1, S=0, twin=True)),
-    "bounds": {"quick": "<=2 ready + <=1 in-transit items, <=2 retrieval and <=1 space reservations, 1 free call", "thorough": "<=3 retrieval, <=2 space reservations, 2 free calls"},
+    "bounds": {"quick": "<=2 ready + <=1 in-transit items (fleet: loading / on a trip / delivered), <=2 retrieval and <=1 space reservations, 1 free call", "thorough": "<=3 retrieval, <=2 space reservations, 2 free calls"},
     "outside": "Fleet availability times (C14)",
 }
 
@@ -380,7 +380,7 @@ PROPS["C03"] = {
     "required_witnesses": ["C03:checked", "C03:quiescence-checked"],
     "nontrivial_witnesses": ["complete"],
     "twin": lambda tier: ("vfy.m2s", "fan", dict(props=("C03",), n_src=1, n_out=1, n_items=2, twin=True)),
-    "bounds": {"quick": "19 topologies/modes around one machine, <=4 items per source, <=2 sources, <=2 sinks, work_capacity<=2, 2-4 symbolic delays",
+    "bounds": {"quick": "43 topologies/modes around one machine (Buffer, Fleet, conveyor and mixed edges), <=4 items per source, <=3 sources, <=2 sinks, work_capacity<=2, 2-4 symbolic delays; 7 source fan-outs; 12 pallet lines incl. conveyor/fleet edges and two-stage packing",
                "thorough": "22 configurations, <=4 items per source, work_capacity<=3, 3 out-edges"},
     "outside": "cyclic graphs, more than one machine in series, RANDOM policy",
 }
@@ -406,7 +406,7 @@ PROPS["C09"] = {
     "required_witnesses": ["C09:discard-seen", "C09:nonblocking-source-checked"],
     "nontrivial_witnesses": ["complete"],
     "twin": lambda tier: ("vfy.m2s", "fan", dict(props=("C09",), n_src=1, n_out=1, n_items=2, blocking=False, twin=True)),
-    "bounds": {"quick": "10 (node, mode, policy) configurations with Buffer out-edges", "thorough": "same with 4 items"},
+    "bounds": {"quick": "17 (node, mode, policy) configurations with Buffer, Fleet, conveyor and mixed out-edges, 8 pallet lines, 7 source fan-outs", "thorough": "same with 4 items"},
     "outside": "conveyor out-edges in non-blocking mode (known finding, C20)",
 }
 
@@ -431,7 +431,7 @@ PROPS["C15"] = {
     "required_witnesses": ["C15:routing-checked", "C15:history-checked", "C15:range-checked"],
     "nontrivial_witnesses": ["complete"],
     "twin": lambda tier: ("vfy.m2s", "fan", dict(props=("C15",), n_src=2, n_out=1, n_items=1, twin=True)),
-    "bounds": {"quick": "n<=2 in/out edges (3 thorough), <=4 items, every policy kind", "thorough": ""},
+    "bounds": {"quick": "n<=3 in / <=2 out edges (3 thorough), <=5 items, every policy kind, blocking and non-blocking nodes, splitter with two feeds", "thorough": ""},
     "outside": "RANDOM policy (any routing is legal)",
 }
 
@@ -494,7 +494,7 @@ PROPS["C14"] = {
     "required_witnesses": ["C14:item-checked", "C14:capacity-departure-checked"],
     "nontrivial_witnesses": ["complete"],
     "twin": lambda tier: ("vfy.m2x", "fleet", dict(props=("C14",), cap=2, n_loads=1, sym=("gap",), twin=True)),
-    "bounds": {"quick": "capacity 1-3, 2-3 loads, 2-3 of {gaps, delay, transit} symbolic, eager and slow consumer, delay in [1,4] or [0,4]",
+    "bounds": {"quick": "capacity 1-3, 2-3 loads, 2-3 of {gaps, delay, transit} symbolic, eager, slow and juggling consumer, value-equal items, delay in [1,4] or [0,4]",
                "thorough": "up to 4 loads, all of gaps/delay/transit symbolic"},
     "outside": "more than 4 loads; fleets inside larger factories are covered by the C03/C20 scenarios",
 }
@@ -553,7 +553,7 @@ PROPS["C12"] = {
     "required_witnesses": ["C12:travel-checked"],
     "nontrivial_witnesses": ["complete"],
     "twin": lambda tier: ("vfy.m2x", "conveyor", dict(props=("C12",), kind="cconv", n_items=1, twin=True)),
-    "bounds": {"quick": "17 (belt kind, accumulation, geometry, consumer) configurations, capacity 2-4, 3 items, speeds 1 and 2, item length 1 and 0.5, one non-multiple belt length",
+    "bounds": {"quick": "26 (belt kind, accumulation, geometry, consumer) configurations, capacity 2-4, 3 items, speeds 1 and 2, item length 1 and 0.5, one non-multiple belt length; consumers eager / late / slow / holding / juggling; one or two producers; one configuration with a bystander belt",
                "thorough": "20 configurations, 4 items"},
     "outside": "belt speed / length / item length are concrete per configuration (products with symbolic geometry would be non-linear); tolerance 2e-5 where the code uses 1e-5",
 }
@@ -644,7 +644,7 @@ PROPS["C16"] = {
     "required_witnesses": ["C16:combiner-output-checked", "C16:splitter-output-checked"],
     "nontrivial_witnesses": ["complete"],
     "twin": lambda tier: ("vfy.m2p", "pk", dict(props=("C16",), recipe=(1, 1), n_pallets=1, twin=True)),
-    "bounds": {"quick": "recipes (1,1) (1,2) (1,1,1), 2 pallets, 1-2 splitter out-edges with FIRST_AVAILABLE / ROUND_ROBIN / constant policy, blocking and non-blocking",
+    "bounds": {"quick": "recipes (1,1) (1,2) (1,3) (1,1,1) (1,0,1), 2-3 pallets, 1-2 splitter out-edges with FIRST_AVAILABLE / ROUND_ROBIN / constant policy, blocking and non-blocking, conveyor / fleet edges next to Splitter and Combiner (index policies), two-stage packing, splitter with two feeds",
                "thorough": "also (1,2,2), 3 pallets, generator policy"},
     "outside": "recipe entries 0 (the combiner crashes on them: not a documented use), more than 3 in-edges",
 }
@@ -745,7 +745,7 @@ PROPS["C20"] = {
     "required_witnesses": ["C20:run-completed", "C20:invalid-config-checked"],
     "nontrivial_witnesses": ["complete"],
     "twin": lambda tier: ("vfy.m2s", "combo", dict(props=("C20",), n_items=1, twin=True)),
-    "bounds": {"quick": "45 component combinations + 3 pallet lines, <=3 items per source (2 with periodic components), 1-3 symbolic delays in [0,2]",
+    "bounds": {"quick": "52 component combinations (three construction orders) + 15 pallet lines, <=3 items per source (2 with periodic components), 1-3 symbolic delays in [0,2]",
                "thorough": "85 combinations"},
     "outside": "Splitter/Combiner with the FIRST_AVAILABLE policy next to Fleet or conveyor edges (rejected by the library with 'Unsupported edge type'; index policies are inside); graphs with cycles; RANDOM policy",
 }
